@@ -19,6 +19,11 @@ def close(a, b, rel=1e-12, abs_=0.0):
 
 def all_close(A, B, rel=1e-12, abs_=0.0):
     A, B = list(A), list(B)
+    if len(A) == len(B) and len(A) > 512:
+        a, b = np.asarray(A, dtype=float), np.asarray(B, dtype=float)
+        with np.errstate(all='ignore'):
+            ok = (a == b) | (np.isfinite(a) & np.isfinite(b) & (np.abs(a - b) <= rel * np.maximum(np.abs(a), np.abs(b)) + abs_))
+        return bool(ok.all())
     return len(A) == len(B) and all(close(a, b, rel, abs_) for a, b in zip(A, B))
 
 def dyadic(rng, lo, hi, bits=4):
